@@ -20,8 +20,8 @@ RULE = ('every public callable reachable from the bct namespace (152; found by i
         'matrices {binary digraph, binary graph, weighted positive symmetric, weighted positive asymmetric, weighted signed '
         'symmetric} x {zero diagonal, non-zero diagonal} on 5 nodes (6 for the undirected binary one, disconnected variants '
         'included), plus for single-matrix programs every binary 3-node digraph and every signed symmetric 3-node matrix with '
-        'zero / non-zero diagonal, x community vectors {1..k, non-contiguous, zero-based} x every value of each boolean/enum flag; randomised '
-        'routines with an integer seed on the C05 argument table and along their first 200 (2000) generator-answer paths under the scripted generator; a program (function x flag combination) is non-trivial when '
+        'zero / non-zero diagonal, x community vectors {1..k, non-contiguous, zero-based} x every value of each boolean/enum flag x every numeric scalar parameter at its usual value and, one at a time, at the boundary values 0 and 1; randomised '
+        'routines with an integer seed on the C05 argument table (each entry also with non-zero diagonals on its matrix arguments and with each scalar argument at 0 / 1) and along their first 200 (2000) generator-answer paths under the scripted generator; a program (function x flag combination) is non-trivial when '
         'it returned normally on at least one input')
 ASSUMPTIONS = ['copy=False calls of the thresholding/conversion utilities are exempt by definition (covered by C17)',
                'excluded programs: plotting / file output (adjacency_plot_und, writetoPAJ, make_motif34lib), listed in the evidence',
@@ -120,6 +120,43 @@ SCALARS = {'k': 2, 's': 0.6, 'thr': 0.3, 'p': 0.5, 'nr_steps': 3, 'd': 0.85, 'cq
            'source': 0, 'qmax': 3, 'H': 50, 'Texp': 1, 'T0': 1e-3, 'Hbrk': 5, 'buffsz': 1000}
 
 
+BOUNDARY = (0, 1)
+
+
+def _is_scalar(v):
+    return isinstance(v, (int, float)) and not isinstance(v, bool)
+
+
+def _with_diag(v):
+    if isinstance(v, np.ndarray) and v.ndim == 2 and v.shape[0] == v.shape[1] and v.dtype.kind == 'f' and len(v) > 1:
+        v = v.copy()
+        np.fill_diagonal(v, [1.0 - 0.125 * (k % 3) for k in range(len(v))])
+    return v
+
+
+def table_variants(a, kw):
+    """the table entry itself; the entry with a non-zero diagonal on every square matrix argument; and each of
+    the two with one numeric scalar argument at a time set to a boundary value (0, 1)."""
+    for dlabel, fix in (('', lambda v: v), ('+diag', _with_diag)):
+        a0 = [fix(v) for v in stb.clone(a)]
+        k0 = {k: fix(v) for k, v in stb.clone(kw).items()}
+        yield (dlabel, a0, k0)
+        for pos, v in enumerate(a):
+            if _is_scalar(v):
+                for bv in BOUNDARY:
+                    if bv != v:
+                        a1 = [fix(x) for x in stb.clone(a)]
+                        a1[pos] = type(v)(bv)
+                        yield ('%s/arg%d=%s' % (dlabel, pos, bv), a1, {k: fix(x) for k, x in stb.clone(kw).items()})
+        for key, v in kw.items():
+            if _is_scalar(v):
+                for bv in BOUNDARY:
+                    if bv != v:
+                        k1 = {k: fix(x) for k, x in stb.clone(kw).items()}
+                        k1[key] = type(v)(bv)
+                        yield ('%s/%s=%s' % (dlabel, key, bv), [fix(x) for x in stb.clone(a)], k1)
+
+
 def build_programs():
     """-> list of (label, fname, builder) where builder(mats) yields (input_label, args, kwargs)."""
     progs, uncovered = [], []
@@ -142,7 +179,8 @@ def build_programs():
             def b(mats, nm=nm):
                 for idx in range(len(stb.TABLE[nm])):
                     a, kw = stb.TABLE[nm][idx]
-                    yield ('table%d' % idx, stb.clone(a), dict(stb.clone(kw), seed=0))
+                    for vlabel, va, vkw in table_variants(a, kw):
+                        yield ('table%d%s' % (idx, vlabel), va, dict(vkw, seed=0))
             progs.append((nm, nm, b))
             continue
         req = [p for p in params if p.default is inspect._empty]
@@ -156,11 +194,16 @@ def build_programs():
             uncovered.append(nm)
             continue
         flag_names = [p.name for p in opt if p.name in FLAG_VALUES]
+        # every numeric scalar parameter (required, or optional and not a flag) also at the boundary values, one at a time
+        opt_scalars = [p.name for p in opt if p.name in SCALARS and p.name not in FLAG_VALUES]
+        scalar_sets = [(None, None)] + [(nm2, type(SCALARS[nm2])(bv)) for nm2 in
+                                        [p.name for p in rest if p.name in SCALARS] + opt_scalars
+                                        for bv in BOUNDARY if bv != SCALARS[nm2]]
         for combo in itertools.product(*[FLAG_VALUES[k] for k in flag_names]):
             kw = dict(zip(flag_names, combo))
             label = nm + ('[' + ','.join('%s=%s' % kv for kv in kw.items()) + ']' if kw else '')
 
-            def b(mats, rest=rest, kw=kw):
+            def b(mats, rest=rest, kw=kw, scalar_sets=scalar_sets, opt_scalars=opt_scalars):
                 allm = dict(mats)
                 allm.update(small_matrices())
                 for mname, M in allm.items():
@@ -168,10 +211,16 @@ def build_programs():
                     if any(p.name == 'ci' for p in rest):
                         extra_sets = [{'ci': v} for v in community_vectors(len(M)).values()]
                     for ex in extra_sets:
-                        args = [keep_layout(M)]
-                        for p in rest:
-                            args.append(ex['ci'].copy() if p.name == 'ci' else SCALARS[p.name])
-                        yield (mname + ('' if not ex else '/ci'), args, dict(kw))
+                        for sname, sval in scalar_sets:
+                            args = [keep_layout(M)]
+                            for p in rest:
+                                args.append(ex['ci'].copy() if p.name == 'ci' else
+                                            (sval if p.name == sname else SCALARS[p.name]))
+                            kw2 = dict(kw)
+                            if sname in opt_scalars:
+                                kw2[sname] = sval
+                            yield (mname + ('' if not ex else '/ci') + ('' if sname is None else '/%s=%s' % (sname, sval)),
+                                   args, kw2)
             progs.append((label, nm, b))
     return progs, uncovered
 
@@ -337,7 +386,7 @@ def work(unit):
     for inp, args, kw in builder(mats):
         before_a = [snap(a) for a in args]
         before_k = {k: snap(v) for k, v in kw.items()}
-        st, out = guarded(f, *args, _timeout=60, **kw)
+        st, out = guarded(f, *args, _timeout=20, **kw)
         t.c['evaluations'] += 1
         if st == 'ok':
             returned += 1
